@@ -185,6 +185,7 @@ def main(tier, seed):
     r12.c03_reduce_rules(rep, ap, rng, tier, PID)
     r12.c03_trace_rule(rep, ap, rng, tier, PID)
     r12.c03_view_rules(rep, ap, rng, tier, PID)
+    r12.c03_broadcast_rules(rep, ap, rng, tier, PID)
     return rep.finish()
 
 
